@@ -41,7 +41,7 @@ man = {
                  "kind_free_text": "Coq 8.16.1 development under /verif/coq (logical root LCP); extracted OCaml model runners; C drivers built from /repo; python orchestration"}],
     "checks": checks,
     "not_applicable": na,
-    "notes": "See DESIGN.md. Every check: translator sync -> coq proofs (Properties_<id>*.v) -> build C driver from /repo -> correspondence of implementation vs extracted model vs independent spec (library as built by the repository's flags, then once more with -DNDEBUG; thorough tier: three generator seeds) -> decide. A translator module that cannot read a rewritten statement falls back to its pinned output and the check prints a NOTE (DESIGN.md 12.10). known_findings.json lists genuine defects.",
+    "notes": "See DESIGN.md. Every check: translator sync -> coq proofs (Properties_<id>*.v) -> build C driver from /repo -> correspondence of implementation vs extracted model vs independent spec (library as built by the repository's flags, then once more with -DNDEBUG; thorough tier: two generator seeds) -> decide. A translator module that cannot read a rewritten statement falls back to its pinned output and the check prints a NOTE (DESIGN.md 12.10). known_findings.json lists genuine defects.",
 }
 json.dump(man, open(os.path.join(HERE, "MANIFEST.json"), "w"), indent=1)
 print("claimed:", [c["property_id"] for c in checks])
